@@ -223,6 +223,7 @@ def units(tier):
     _wrap(us, "C17.relexpr.string_operands_follow_strcmp", CT.unit_string_comparison)
     _wrap(us, "C17.findvar.subscripts_in_range_and_row_major", CT.unit_findvar_subscripts)
     _wrap(us, "C17.cmdrestore.data_pointer_moves_with_the_data_line", CT.unit_cmdrestore)
+    _wrap(us, "C17.factor.scalar_readouts_return_the_quantity_they_name", CT.unit_scalar_readouts)
     return us
 
 
